@@ -196,6 +196,17 @@ def ackObs (a : Option (List Kind × List Nat)) (hold : Bool) : Obs × Bool :=
   | some (ks, us) => (.ack ks us hold, hold)
   | none => (.noack, false)
 
+/-- which outstanding write of a held fan-out goes on: the one addressed to whom the implementation's record
+names (the first one if that names nobody the model knows) -/
+def fsendIdx (y : State) (infl : List Send) (hint : Option Who) : Nat :=
+  let hintSid : Option Nat := match hint with
+    | some (.closed sid) => some sid
+    | some (.slot i) => if (y.slots i).used then some (y.slots i).sid else none
+    | none => none
+  match hintSid with
+  | some sid => (infl.findIdx? (fun x => x.sid == sid)).getD 0
+  | none => 0
+
 /-- One op on the composed model: new state and the predicted observation.  `hint`: whom the
 IMPLEMENTATION's `fsend` record says its write was addressed to (the order of the fan-out loop over a
 Go map is not determined: the model follows the implementation). -/
@@ -236,13 +247,7 @@ def sysStep (y : State) (op : Op) (hint : Option Who) : State × Obs :=
     let infl := (y.srv.ks k).inflight
     if infl.isEmpty then (y, .refused) else
     -- the order of the loop over the subscriber map is not determined: follow the implementation
-    let hintSid : Option Nat := match hint with
-      | some (.closed sid) => some sid
-      | some (.slot i) => if (y.slots i).used then some (y.slots i).sid else none
-      | none => none
-    let idx := match hintSid with
-      | some sid => (infl.findIdx? (fun x => x.sid == sid)).getD 0
-      | none => 0
+    let idx := fsendIdx y infl hint
     let addr := whoOfSid y (infl.getD idx ⟨0, none⟩).sid
     let (s, outs) := deliver y.srv k idx
     let sent := outs.filterMap (fun x => match x with | .sent _ x => some x | _ => none)
